@@ -7,9 +7,11 @@ package c12
 
 import (
 	"bytes"
+	"context"
 	"fmt"
 	"io"
 	"net/http"
+	"sort"
 	"strings"
 	"sync"
 	"time"
@@ -17,16 +19,18 @@ import (
 	"github.com/thushan/olla/internal/core/domain"
 	"github.com/thushan/olla/verifharness/backend"
 	"github.com/thushan/olla/verifharness/ev"
+	"github.com/thushan/olla/verifharness/hx"
 	"github.com/thushan/olla/verifharness/stack"
 	"pgregory.net/rapid"
 )
 
 type rigT struct {
-	s   *stack.Stack
-	be  *backend.Rec
-	cl  *http.Client
-	err error
-	mu  sync.Mutex
+	known map[string]bool
+	s     *stack.Stack
+	be    *backend.Rec
+	cl    *http.Client
+	err   error
+	mu    sync.Mutex
 }
 
 var (
@@ -68,9 +72,55 @@ func getRig() *rigT {
 		}
 		s.SetAll(domain.StatusHealthy)
 		theRig.s, theRig.be = s, be
+		theRig.known = map[string]bool{}
+		if err := theRig.ensureModel(append([]string{"m"}, models...)...); err != nil {
+			theRig.err = err
+		}
 		theRig.cl = stack.Client(true, 20*time.Second)
 	})
 	return &theRig
+}
+
+// ensureModel registers names (with everything registered before) on the backend and waits until
+// the registry routes each of them to it.
+func (r *rigT) ensureModel(names ...string) error {
+	fresh := false
+	for _, n := range names {
+		if !r.known[n] {
+			r.known[n] = true
+			fresh = true
+		}
+	}
+	if !fresh {
+		return nil
+	}
+	all := make([]string, 0, len(r.known))
+	for n := range r.known {
+		all = append(all, n)
+	}
+	sort.Strings(all)
+	if err := r.s.RegisterModels(r.be.URL(), all...); err != nil {
+		return err
+	}
+	ctx := context.Background()
+	okAll := hx.Poll(5*time.Second, 5*time.Millisecond, func() bool {
+		for _, n := range all {
+			// the route extracts the model in lower case and resolves it through the unified index
+			for _, q := range []string{n, strings.ToLower(n)} {
+				eps, err := r.s.Registry.GetEndpointsForModel(ctx, q)
+				if err != nil || len(eps) == 0 {
+					return false
+				}
+			}
+		}
+		return true
+	})
+	if !okAll {
+		return fmt.Errorf("registry does not route all of %v to the backend after 5 s", all)
+	}
+	// the asynchronous unification may still be settling: give it a moment once
+	time.Sleep(50 * time.Millisecond)
+	return nil
 }
 
 func stopStack() {
@@ -97,16 +147,16 @@ func runHandler(c Case) []ev.Violation {
 	defer r.mu.Unlock()
 	rec.Eval(1)
 
-	// strict model routing: tell the registry that the backend serves the requested model
-	model := "m"
+	// strict model routing: the registry must know that the backend serves the requested model.
+	// Registration is applied asynchronously inside Olla, so all generator models are registered
+	// once at boot and confirmed; only a replayed case with another model registers here.
 	if v, err := parseJSON([]byte(c.Body)); err == nil {
 		if s, ok := asMap(v)["model"].(string); ok && s != "" {
-			model = s
+			if err := r.ensureModel(s); err != nil {
+				rec.Inconclusive("handler: register model: " + err.Error())
+				return nil
+			}
 		}
-	}
-	if err := r.s.RegisterModels(r.be.URL(), model); err != nil {
-		rec.Inconclusive("handler: register model: " + err.Error())
-		return nil
 	}
 	r.s.SetAll(domain.StatusHealthy)
 	r.be.Reset()
